@@ -3,7 +3,7 @@
    Models: Gen/LinePP.v (hand model of _generate_with_line_buffer, tied by correspondence),
    Generated/Gen_LinePP.v (T2 translation of the two built-in processors and of the
    newline pattern, regenerated from /repo on every run). *)
-From Verif Require Import LinePP LinePPThm LinePPRejoinThm LinePPInst LinePPInstThm Gen_Pin_linebuf.
+From Verif Require Import LinePP LinePPThm LinePPRejoinThm LinePPInst LinePPInstThm LinePPFiles LinePPFilesThm Gen_Pin_linebuf.
 Open Scope N_scope.
 
 (* (0) Tie of the hand model Gen/LinePP.v to the source: the shape pin (tools/translators/shape_pin.py) regenerates
@@ -86,6 +86,21 @@ Theorem C15_copy_header_linewise :
     copy_header step (py_lines text) st = linewise step st text.
 Proof. exact copy_header_linewise. Qed.
 Print Assumptions C15_copy_header_linewise.
+
+(* (2c) Files of one generator run: the line processors are shared objects, reset before every file (_generate_code calls
+   _reset_line_pp; LimitEmptyLines.reset is translated).  Hence EVERY file of ANY sequence of files, each chunked in any
+   way, is the line-by-line application of the pipeline in its constructed state to that file's complete text: what was
+   written before does not matter (repaired finding F-LEL-LEAK, shared with C10). *)
+Theorem C15_every_file_processed_afresh :
+  forall (files : list (list str)) (ps : list pp),
+    gen_files ps files = map (fun f => snd (linewise pipe_step (map pp_reset ps) (concat f))) files.
+Proof. exact gen_files_independent. Qed.
+Print Assumptions C15_every_file_processed_afresh.
+
+Example C15_reset_is_needed :
+  gen_files_noreset [PLimit (LimitEmptyLines_init 1)] [[[97; 10; 10]]; [[10; 98]]]
+  <> gen_files [PLimit (LimitEmptyLines_init 1)] [[[97; 10; 10]]; [[10; 98]]].
+Proof. exact gen_files_noreset_leaks. Qed.
 
 (* (3) TrimTrailingWhitespace (translated) removes exactly the maximal trailing run of
    Python-whitespace code points of the line content and keeps the terminator. *)
